@@ -49,3 +49,26 @@ pub(crate) fn dereference_changed(ty: &Type) -> (&Type, bool) {
         (ty, false)
     }
 }
+
+/// `*` once for every reference layer of `ty`, plus `extra` more: written in front of a place of
+/// type `ty`, it yields the referent that `dereference` names. Spelling the dereferences out
+/// keeps the compiler from picking an unsizing coercion instead (`&&dyn Trait` coerces to
+/// `&dyn Trait` by wrapping the inner reference, not by dereferencing it).
+#[inline]
+pub(crate) fn dereference_stars(ty: &Type, extra: usize) -> proc_macro2::TokenStream {
+    let mut depth = extra;
+    let mut ty = ty;
+
+    while let Type::Reference(reference) = ty {
+        depth += 1;
+        ty = reference.elem.as_ref();
+    }
+
+    let mut token_stream = proc_macro2::TokenStream::new();
+
+    for _ in 0..depth {
+        token_stream.extend(quote!(*));
+    }
+
+    token_stream
+}
